@@ -140,6 +140,8 @@ def data_maps():
         # two tables bound the other way round, built in the other insertion order
         "AC": {"d": A, "e": A_cell},
         "CA": {"e": A, "d": A_cell},
+        # one caller-owned frame object edited in place between the contents of A and Acell
+        "M": {"d": A.copy()},
     }
 
 
@@ -179,16 +181,31 @@ def replay_history(hist, MODELS, DMS, RES):
     cache = ResultCache()
     model = {}
     last = None  # (frame returned by the last successful get)
+    # "M" is one caller-owned frame object that the history edits in place between the contents of
+    # A and Acell (C25-r4m1): keys are a function of table *contents*, so the model files it under the
+    # name of the equal fresh frame
+    mcontent = "A"
+    if "M" in DMS:
+        DMS["M"]["d"].loc[1, "x"] = 2
     for i, ev in enumerate(hist):
+        if ev[0] == "edit":
+            mcontent = "Acell" if mcontent == "A" else "A"
+            DMS["M"]["d"].loc[1, "x"] = 3 if mcontent == "Acell" else 2
+            continue
+        if ev[0] in ("store", "get") and ev[3] == "M":
+            ev = ev[:3] + (mcontent,) + ev[4:]
+            dm_use = DMS["M"]
+        elif ev[0] in ("store", "get"):
+            dm_use = DMS[ev[3]]
         if ev[0] == "store":
             _, m, s, d, r = ev
-            cache.store(db_model=MODELS[m], sql=SQLS[s], data_map=DMS[d], res=RES[r])
+            cache.store(db_model=MODELS[m], sql=SQLS[s], data_map=dm_use, res=RES[r])
             model[(m, s, d)] = r
         elif ev[0] == "get":
             _, m, s, d = ev
             want = model.get((m, s, d))
             try:
-                got = cache.get(db_model=MODELS[m], sql=SQLS[s], data_map=DMS[d])
+                got = cache.get(db_model=MODELS[m], sql=SQLS[s], data_map=dm_use)
             except KeyError:
                 got = None
             if want is None:
@@ -210,6 +227,8 @@ def replay_history(hist, MODELS, DMS, RES):
     for m in MODELS:
         for s in SQLS:
             for d in DMS:
+                if d == "M":
+                    continue
                 want = model.get((m, s, d))
                 try:
                     got = cache.get(db_model=MODELS[m], sql=SQLS[s], data_map=DMS[d])
@@ -254,6 +273,8 @@ def run(tier):
     plans = [
         (["A", "Aperm", "Acell"], events(["A", "Aperm", "Acell"]), depth),
         (["AC", "CA", "A+B"], events(["AC", "CA", "A+B"], model_names=("sqlite",), sql_names=("s1",)), depth + 1),
+        # a caller-owned frame edited in place between two contents, next to fresh frames with those contents
+        (["A", "Acell", "M"], events(["A", "Acell", "M"], model_names=("sqlite",), sql_names=("s1",)) + [("edit",)], depth + 1),
     ]
     seen_total = 0
     transitions = 0
@@ -278,7 +299,7 @@ def run(tier):
                     if e[0] == "get":
                         last_get = e
                         break
-                k = (mstate, last_get, h[-1][0] == "mutate")
+                k = (mstate, last_get, h[-1][0] == "mutate", sum(1 for e in h if e[0] == "edit") % 2)
                 if k not in seen:
                     seen.add(k)
                     nxt.append(h)
@@ -296,7 +317,7 @@ def run(tier):
     ]
     return run.finish(
         exhaustive=True,
-        rule=f"(iii) all pairs of (dialect, sql, data map) keys over 24 one- and two-table data maps in both dict insertion orders; (i) all {nf*(nf-1)//2} pairs of the complete family of frames with <= {max_rows} rows, 1-2 columns named x/y in either order, column types int/float/str/bool over 2-3 values each; (ii) all histories of length <= {depth} over 37 events (store/get x 2 dialects x 2 SQL texts x 3 one-table data maps incl. a row permutation and a one-cell change x 2 results; mutate last returned frame) and all histories of length <= {depth + 1} over 10 events on three two-table data maps (the same two frames bound both ways round, built in both insertion orders), merged on the model state",
+        rule=f"(iii) all pairs of (dialect, sql, data map) keys over 24 one- and two-table data maps in both dict insertion orders; (i) all {nf*(nf-1)//2} pairs of the complete family of frames with <= {max_rows} rows, 1-2 columns named x/y in either order, column types int/float/str/bool over 2-3 values each; (ii) all histories of length <= {depth} over 37 events (store/get x 2 dialects x 2 SQL texts x 3 one-table data maps incl. a row permutation and a one-cell change x 2 results; mutate last returned frame) and all histories of length <= {depth + 1} over 10 events on three two-table data maps (the same two frames bound both ways round, built in both insertion orders), and all histories of length <= {depth + 1} over 11 events on two fresh frames and one caller-owned frame object that an 'edit' event changes in place between their two contents (keys follow contents, not object identity), merged on the model state",
     )
 
 
